@@ -67,7 +67,10 @@ claim("C01", "Chain of contracts: P3 on each compute_domains_X under contract; B
       "Acceptance theorem (semantic layer: ghost assignment sigma, uninterpreted relation Rel(p, .) per posted constraint, propagator interface P3/P4), for problems whose constraints watch MIN and MAX of all their variables (full masks) "
       "solved with either shipped consistency algorithm (interface ConsistencyAlgAcc, implemented by bound_consistency_algorithm#acc and shaving_consistency_algorithm#acc over shave_bound#acc): bound_consistency_algorithm#acc keeps K (an enabled constraint whose variables are all instantiated to sigma holds on sigma unless it is queued) and J (a disabled constraint holds on every point of the box) "
       "and at its fixpoint every enabled instantiated constraint holds; solve_one#acc carries K/J per stack level through branching (C09 contract) and backtracking (C09.wake), so the assignment it returns satisfies every posted relation; "
-      "BacktrackSolver.solve#acc / solve_and_queue#acc assert it at the yield / queue.put, optimize#minacc/#maxacc for the returned optimum. Partial wake-up masks (per-propagator get_triggers adequacy) and Problem.init stay with the bounded engine suite.",
+      "BacktrackSolver.solve#acc / solve_and_queue#acc assert it at the yield / queue.put, optimize#minacc/#maxacc for the returned optimum. For ARBITRARY wake-up masks the same theorem is proved from the fixpoint layer (C08) instead of the full-mask argument: interface ConsistencyAlgFixJ = the conjunction of two verified contracts of BC and of shaving "
+      "(#fix: every enabled constraint ends at a fixpoint; #j: a disabled constraint holds on every point of the box, no hypothesis on the masks), solve_one#accp / solve#accp / solve_and_queue#accp / optimize#minaccp/#maxaccp, "
+      "with the bridge axiom A-FIX-ACC (a constraint at a fixpoint on an instantiated row holds: clause P3) and the two axioms of C08, under 'no constraint has one shared domain at two positions' and 'the linear equality watches MIN|MAX'. "
+      "Problem.init and the per-propagator content of the axioms stay with the bounded suites.",
       "contract-based deductive verification + bounded engine suite", level="other")
 claim("C02", "Loop contracts of solve_one / BacktrackSolver.solve: each search resumes from a well-formed stack, the branching contract (C09) partitions, the variable heuristics return an open decision domain or -1 only when none is left, "
       "exhaustion is reported only with an empty stack; stack levels stay pairwise separated on the recorded split domain; semantic layer (ghost solution sigma, uninterpreted relations): BC and shaving keep every solution of the box, "
